@@ -3,29 +3,92 @@ from . import extras
 
 TERMINATION_PROPS = {'C08'}
 
+FOREIGN = ('assumed contracts of builtins: int.to_bytes/from_bytes, binascii.hexlify + int(.,16), hex()/unhexlify on 0x80-prefixed '
+           'numbers (hex80_axiom), slicing/indexing/IndexError, bytearray range check (ValueError), str/bytes codecs as '
+           'uninterpreted functions')
+GRAPH = ('the compiled type graph is built from the classes under contract; parser and descriptor -> constructor dispatch '
+         '(compile_type) are not proved')
+
 PROPS = {
     'C15': {
-        'level': 'proof',
         'assumptions': [
-            'decode_with_length(msg ++ tail) == (decode(msg), len(msg)) for whole compiled types rests on the per-class '
-            'BER decode contracts (tail independence: every contract quantifies over the bytes after the element)',
-        ],
-        'trusted_base': [],
+            'decode_with_length(msg ++ tail) == (decode(msg), len(msg)) for whole compiled types rests on the per-class BER decode '
+            'contracts (tail independence: every contract quantifies over the bytes after the element); exact consumption of '
+            'nested containers (MembersType.decode_members) is not proved', GRAPH],
+        'trusted_base': [FOREIGN],
         'explanation': 'X.690 identifier/length octet framing: skip_tag, decode_length, decode_full_length against tlv spec',
     },
     'C18': {
-        'level': 'proof',
         'extra': [('pyvc-own', extras.frame_check)],
         'needs_contracts': False,
         'assumptions': [
-            'CPython builtins used by the codecs (json, xml.etree, struct, binascii, datetime) are re-entrant and do not '
-            'keep state between calls',
+            'CPython builtins used by the codecs (json, xml.etree, struct, binascii, datetime) are re-entrant and do not keep state',
             'reading shared immutable objects from several threads is safe',
             'method resolution is by name within a codec family (conservative); receiver types are not inferred',
-            'frame contracts (which parameters are per-call objects) are those of pyvc/own.py FrameSpec',
-        ],
+            'frame contracts (which parameters are per-call objects) are those of pyvc/own.py FrameSpec'],
         'trusted_base': ['pyvc-own frame checker (pyvc/own.py)'],
-        'explanation': 'every write site in every function reachable from encode/decode is rooted in an object created by '
-                       'the call or in an owned per-call parameter; hence calls are pure functions of their arguments',
+        'explanation': 'every write site in every function reachable from encode/decode is rooted in an object created by the call or '
+                       'in an owned per-call parameter; hence calls are pure functions of their arguments',
+    },
+    'C03': {
+        'extra': [('pyvc-own(copy-before-write)', extras.cow_check)],
+        'assumptions': [GRAPH, 'SET member ordering, SET OF sorting, named-bit trailing-zero removal and DEFAULT omission in '
+                        'MembersType are not under contract yet (see DESIGN.md, known defects 3, 4, 19, 21)',
+                        'time types and REAL contents are not under contract'],
+        'trusted_base': [FOREIGN],
+        'explanation': 'DER primitives against X.690: minimal definite length, identifier octets, minimal two\'s complement, BOOLEAN '
+                       '0xFF, BIT STRING unused bits, TLV wrapper; compile-time copy-before-write so a DEFAULT/SIZE/tag of one use site '
+                       'cannot leak into another',
+    },
+    'C06': {
+        'assumptions': [GRAPH, 'MembersType/Choice/Enumerated/Real/time types of the OER codec are not under contract yet'],
+        'trusted_base': [FOREIGN, 'struct.pack/unpack are not modelled (fixed-width INTEGER encode/decode bodies are out of the kernel)'],
+        'explanation': 'OER bit stream algebra (Encoder/Decoder primitives), INTEGER width selection against X.696 10, BOOLEAN, '
+                       'fixed-size BIT STRING / OCTET STRING consumption',
+    },
+    'C05': {
+        'assumptions': [GRAPH, 'exactness contracts of the PER Encoder cover accumulators of up to 4096 bits (before the first flush to '
+                        'chunks); the flush path is covered by bit-count contracts only',
+                        'PER type classes (Integer, Enumerated, strings, SEQUENCE preamble, CHOICE) are not under contract yet'],
+        'trusted_base': [FOREIGN],
+        'explanation': 'PER/UPER Encoder and Decoder primitives against X.691 11: alignment over all bits written, length determinant '
+                       'forms, normally small numbers/lengths, constrained whole numbers (aligned variant), checked reads',
+    },
+    'C16': {
+        'assumptions': [GRAPH, 'prefix lemma (a run on a prefix coincides with the run on the whole input until the first read that '
+                        'crosses the cut) and the consumption lemma are argued in DESIGN.md (C16), not mechanised'],
+        'trusted_base': [FOREIGN],
+        'explanation': 'checked reads: every decoder primitive raises the library decode error (and consumes nothing) when fewer bits '
+                       'or octets are left than it needs, and raises no other exception on that path',
+    },
+    'C08': {
+        'extra': [('pyvc-own(decode paths)', extras.frame_check_decode)],
+        'assumptions': [GRAPH, 'ber.MembersType.decode_members, PER/OER containers, JER/XER (json / ElementTree) are not under contract',
+                        'cost is bounded only through the decreases measures (iterations <= octets consumed)'],
+        'trusted_base': [FOREIGN],
+        'explanation': 'a decreases measure for every while loop of the BER/DER/OER decode kernels, progress contracts '
+                       '(offset strictly grows or TAG_MISMATCH at the same offset, never silently kept), lengths checked against the '
+                       'remaining data before use; decode paths write no shared state (frame check)',
+    },
+    'C04': {
+        'assumptions': [GRAPH, 'SET members in any order (MembersType.decode_members) and the concatenation of constructed string '
+                        'segments are not under contract'],
+        'trusted_base': [FOREIGN],
+        'explanation': 'BER decoder accepts every X.690 length form (short, long with leading zeros, indefinite with end-of-contents), '
+                       'primitive and constructed tag forms of strings, nested constructed segments (progress + termination)',
+    },
+    'C07': {
+        'assumptions': [GRAPH, 'PER/OER addition decoding (decode_additions) and JER/XER are not under contract'],
+        'trusted_base': [FOREIGN],
+        'explanation': 'skip/re-synchronisation: an unknown CHOICE alternative is skipped by exactly its TLV, unknown ENUMERATED values '
+                       'of extensible types decode to None, skip_bits is a checked skip',
+    },
+    'C11': {
+        'extra': [('pyvc-own(copy-before-write)', extras.cow_check)],
+        'assumptions': [GRAPH, 'bound resolution through value references (Compiler.get_size_range / get_restricted_to_range) and '
+                        'Dict (SEQUENCE/SET) traversal are not under contract yet'],
+        'trusted_base': [FOREIGN],
+        'explanation': 'iff-contracts of the constraints checker: range bookkeeping (extensible => not enforced), INTEGER / BIT STRING / '
+                       'OCTET STRING / character string size and alphabet, SEQUENCE OF (every element visited), CHOICE',
     },
 }
